@@ -269,7 +269,8 @@ def make_harness(case, tier):
                 q = z3.BoolVal(False)
                 desc = {'scenario': 'custom', 'v1': [a1, b1], 'v2': [a2, b2]}
             else:
-                s1, s2, t1, t2, r1, r2 = I('s1'), I('s2'), S('t1', **pr), S('t2', **pr), I('r1'), I('r2')
+                pq = dict(exclude='\\\n\r\t\x00\x7f"')       # apostrophes allowed: repr() then switches to double quotes
+                s1, s2, t1, t2, r1, r2 = I('s1'), I('s2'), S('t1', **pq), S('t2', **pq), I('r1'), I('r2')
                 o1 = PO.Sized(s1, tags=[t1, 7], rate=r1)
                 o2 = PO.Sized(s2, tags=[t2, 7], rate=r2)
                 same = z3.And(py_eq(s1, s2), py_eq(t1, t2), py_eq(r1, r2))
